@@ -228,6 +228,7 @@ for _kind in ('line_comment', 'docstr', 'noedit'):
 # node-level operations which rewrite source in place without going through put/put_slice: par(), unpar(), and value assignment
 PAR_SRCS = {
     'tight': 'r = x if(a)else c\ns = [(b)for(b)in(d)]\n',
+    'tight2': 'y = not(x)in z\nw = a and(b)or c\nwith(a)as b: pass\nv = (a )if b else c\nu = [i for i in(j)if k]\n',
     'arith': 'v = (a) + (b * (c)) - ((d))\nw = -(e) ** (f)\n',
     'call': 'f((a), *(b), k=(c))  # cc\ng = h[(i)](j)\n',
     'tuples': 't = (a, (b, c))\nfor (i) in (x), y: pass\n',
